@@ -125,6 +125,7 @@ Chain(left, ops, xs) ==   \* left already evaluated and good
             IF c = "err" THEN Err ELSE IF c = "unspec" THEN Unspec ELSE IF c = "f" THEN Bo(FALSE) ELSE Chain(r, Tail(ops), Tail(xs))
 Eval(e) ==
   CASE e.k = "const" -> e.val
+    [] e.k = "forb" -> Err          \* a construct outside the allowed subset (property C01): the engine must fail if it is evaluated
     [] e.k = "bin" -> LET a == Eval(e.l) IN IF a.t \in {"err", "unspec"} THEN a ELSE Bin(e.op, a, Eval(e.r))
     [] e.k = "un" -> Un(e.op, Eval(e.x))
     [] e.k = "bool" -> LET a == Eval(e.xs[1]) IN
@@ -170,4 +171,73 @@ MidS == {[k |-> "bin", op |-> "+", l |-> K(I(2)), r |-> K(I(2))], [k |-> "bin", 
          [k |-> "call", f |-> "len", args |-> <<K(S("True"))>>, kw |-> <<>>], [k |-> "call", f |-> "int", args |-> <<K(S("10"))>>, kw |-> <<<<"base", K(I(2))>>>>]}
 D2 == Over(Small \cup MidS)
 AllPrograms == Programs \cup D2
+(* ------------------------------ C01: constructs outside the allowed subset, in evaluated and unevaluated positions ------------------------------ *)
+ForbKinds == {"Attribute", "AttributeCall", "Subscript", "Lambda", "LambdaCall", "ListComp", "SetComp", "DictComp", "GeneratorExp", "JoinedStr",
+              "UnknownName", "DeniedName", "DeniedCall", "CallOfCall", "Starred", "Await", "Yield", "NamedExpr", "Slice", "Import", "BigAttrChain"}
+Fb(kd) == [k |-> "forb", kind |-> kd]
+One == K(I(1))
+Around(f) == {f,
+              [k |-> "bin", op |-> "+", l |-> f, r |-> One], [k |-> "bin", op |-> "*", l |-> K(I(2)), r |-> f],
+              [k |-> "un", op |-> "neg", x |-> f], [k |-> "un", op |-> "not", x |-> f],
+              [k |-> "call", f |-> "abs", args |-> <<f>>, kw |-> <<>>], [k |-> "call", f |-> "round", args |-> <<One>>, kw |-> <<<<"ndigits", f>>>>],
+              [k |-> "list", xs |-> <<One, f>>], [k |-> "cmp", ops |-> <<"<">>, xs |-> <<One, f>>], [k |-> "cmp", ops |-> <<"<", "<">>, xs |-> <<K(I(2)), One, f>>],
+              [k |-> "if", c |-> K(Bo(TRUE)), a |-> f, b |-> One], [k |-> "if", c |-> K(Bo(TRUE)), a |-> One, b |-> f], [k |-> "if", c |-> f, a |-> One, b |-> K(I(2))],
+              [k |-> "bool", op |-> "and", xs |-> <<K(I(0)), f>>], [k |-> "bool", op |-> "and", xs |-> <<One, f>>], [k |-> "bool", op |-> "or", xs |-> <<One, f>>],
+              [k |-> "bool", op |-> "or", xs |-> <<K(I(0)), f>>]}
+ForbPrograms == UNION {Around(Fb(kd)) : kd \in ForbKinds}
+(* resource bombs: an abstract cost model.  Abs(e) = [v (exact value when small, else -1), bits (upper estimate of the size of the result in bits / items, capped)] *)
+CAPB == 1000000000
+MulCap(a, b) == IF a = 0 \/ b = 0 THEN 0 ELSE IF a > CAPB \div b THEN CAPB ELSE a * b
+AddCap(a, b) == IF a + b > CAPB THEN CAPB ELSE a + b
+RECURSIVE BitLen(_)
+BitLen(n) == IF n <= 1 THEN 1 ELSE 1 + BitLen(n \div 2)
+RECURSIVE PowSmall(_, _)
+PowSmall(a, b) == IF b = 0 THEN 1 ELSE LET p == PowSmall(a, b - 1) IN IF p = -1 \/ a > 1000 \/ (a > 0 /\ p > 1000000000 \div a) THEN -1 ELSE p * a
+RECURSIVE FactSmall(_)
+FactSmall(n) == IF n <= 1 THEN 1 ELSE n * FactSmall(n - 1)          \* only used for n <= 9
+VLo(x) == IF x.v >= 0 THEN x.v ELSE x.vlo                          \* a lower bound of the value
+Big6 == 1000000000                                          \* values up to 10^9 are carried exactly
+RECURSIVE Abs(_)
+(* Abs(e) = [v : exact value when it is at most 10^6, else -1;  vlo : lower bound of the value when v = -1;  lo, hi : lower / upper bound of the size of the
+   result (bits of an integer, items of a sequence), capped at CAPB;  seq : the result is a string / list] *)
+Abs(e) ==
+  CASE e.k = "n"    -> [v |-> e.n, vlo |-> e.n, lo |-> BitLen(e.n), hi |-> BitLen(e.n), seq |-> FALSE]
+    [] e.k = "p10"  -> [v |-> IF e.n <= 9 THEN PowSmall(10, e.n) ELSE -1, vlo |-> CAPB, lo |-> 3 * e.n, hi |-> 4 * e.n, seq |-> FALSE]
+    [] e.k = "s"    -> [v |-> -1, vlo |-> 0, lo |-> e.n, hi |-> e.n, seq |-> TRUE]
+    [] e.k = "pow"  -> LET a == Abs(e.a)  b == Abs(e.b) IN
+                       IF a.v \in {0, 1} \/ b.v = 0 THEN [v |-> IF b.v = 0 THEN 1 ELSE a.v, vlo |-> 0, lo |-> 0, hi |-> 1, seq |-> FALSE]
+                       ELSE IF b.v >= 0 THEN
+                            LET ex == IF a.v >= 0 /\ b.v <= 31 THEN PowSmall(a.v, b.v) ELSE -1 IN
+                            [v |-> ex, vlo |-> IF ex >= 0 THEN ex ELSE Big6, lo |-> IF ex >= 0 THEN BitLen(ex) ELSE MulCap(a.lo - 1, b.v),
+                             hi |-> IF ex >= 0 THEN BitLen(ex) ELSE MulCap(a.hi, b.v), seq |-> FALSE]
+                       ELSE [v |-> -1, vlo |-> CAPB, lo |-> MulCap(a.lo - 1, b.vlo), hi |-> CAPB, seq |-> FALSE]
+    [] e.k = "mul"  -> LET a == Abs(e.a)  b == Abs(e.b) IN
+                       IF a.seq /\ ~b.seq THEN [v |-> -1, vlo |-> 0, lo |-> MulCap(a.lo, VLo(b)), hi |-> IF b.v >= 0 THEN MulCap(a.hi, b.v) ELSE CAPB, seq |-> TRUE]
+                       ELSE IF b.seq /\ ~a.seq THEN [v |-> -1, vlo |-> 0, lo |-> MulCap(b.lo, VLo(a)), hi |-> IF a.v >= 0 THEN MulCap(b.hi, a.v) ELSE CAPB, seq |-> TRUE]
+                       ELSE LET ex == IF a.v >= 0 /\ b.v >= 0 /\ (a.v = 0 \/ b.v <= Big6 \div a.v) THEN a.v * b.v ELSE -1 IN
+                            [v |-> ex, vlo |-> IF ex >= 0 THEN ex ELSE Big6, lo |-> IF ex >= 0 THEN BitLen(ex) ELSE (IF a.v = 0 \/ b.v = 0 THEN 1 ELSE AddCap(a.lo, b.lo) - 1),
+                             hi |-> IF ex >= 0 THEN BitLen(ex) ELSE AddCap(a.hi, b.hi), seq |-> FALSE]
+    [] e.k = "fact" -> LET a == Abs(e.a) IN
+                       IF a.v >= 0 /\ a.v <= 9 THEN LET f == FactSmall(a.v) IN [v |-> f, vlo |-> f, lo |-> BitLen(f), hi |-> BitLen(f), seq |-> FALSE]
+                       ELSE LET n == VLo(a) IN
+                            [v |-> -1, vlo |-> Big6, lo |-> MulCap(n, BitLen(n) - 3), hi |-> IF a.v >= 0 THEN MulCap(a.v, BitLen(a.v)) ELSE CAPB, seq |-> FALSE]
+BombLimit == 200000000      \* beyond 2 x 10^8 bits / items the evaluation cannot finish within any reasonable timeout or memory: the engine must refuse
+SafeLimit == 4096           \* results up to this size must simply be computed (D-layer; not part of the property)
+RECURSIVE MaxLo(_)
+RECURSIVE MaxHi(_)
+Max2(x, y) == IF x > y THEN x ELSE y
+MaxLo(e) == IF e.k \in {"n", "p10", "s"} THEN Abs(e).lo ELSE IF e.k = "fact" THEN Max2(Abs(e).lo, MaxLo(e.a)) ELSE Max2(Abs(e).lo, Max2(MaxLo(e.a), MaxLo(e.b)))
+MaxHi(e) == IF e.k \in {"n", "p10", "s"} THEN Abs(e).hi ELSE IF e.k = "fact" THEN Max2(Abs(e).hi, MaxHi(e.a)) ELSE Max2(Abs(e).hi, Max2(MaxHi(e.a), MaxHi(e.b)))
+Nn(x) == [k |-> "n", n |-> x]
+BLeaves == {Nn(0), Nn(1), Nn(2), Nn(9), Nn(10), Nn(99), Nn(100000), [k |-> "p10", n |-> 9], [k |-> "p10", n |-> 30], [k |-> "s", n |-> 1], [k |-> "s", n |-> 3]}
+B1 == {[k |-> o, a |-> x, b |-> y] : o \in {"pow", "mul"}, x \in BLeaves, y \in BLeaves} \cup {[k |-> "fact", a |-> x] : x \in BLeaves \ {[k |-> "s", n |-> 1], [k |-> "s", n |-> 3]}}
+B1ok == {e \in B1 : ~(e.k = "pow" /\ (Abs(e.a).seq \/ Abs(e.b).seq)) /\ ~(e.k = "mul" /\ Abs(e.a).seq /\ Abs(e.b).seq)}
+Towers == {[k |-> "pow", a |-> x, b |-> [k |-> "pow", a |-> y, b |-> z]] : x \in {Nn(2), Nn(9)}, y \in {Nn(2), Nn(9), Nn(10)}, z \in {Nn(2), Nn(9), Nn(99), [k |-> "pow", a |-> Nn(9), b |-> Nn(9)]}}
+          \cup {[k |-> "pow", a |-> [k |-> "pow", a |-> x, b |-> y], b |-> z] : x \in {Nn(2), Nn(10)}, y \in {Nn(99), Nn(100000)}, z \in {Nn(99), Nn(100000)}}
+          \cup {[k |-> "mul", a |-> [k |-> "mul", a |-> [k |-> "s", n |-> 3], b |-> x], b |-> y] : x \in {Nn(100000), [k |-> "p10", n |-> 9]}, y \in {Nn(9), Nn(100000)}}
+          \cup {[k |-> "fact", a |-> [k |-> "fact", a |-> x]] : x \in {Nn(2), Nn(9), Nn(10)}}
+          \cup {[k |-> "mul", a |-> x, b |-> [k |-> "pow", a |-> Nn(10), b |-> y]] : x \in {[k |-> "s", n |-> 1], [k |-> "s", n |-> 3]}, y \in {Nn(2), Nn(9), Nn(10), Nn(99)}}
+Bombs == B1ok \cup Towers
+BombCase(e) == [ast |-> e, lo |-> MaxLo(e), hi |-> MaxHi(e), alo |-> Abs(e).lo, ahi |-> Abs(e).hi, bomb |-> MaxLo(e) > BombLimit, safe |-> MaxHi(e) <= SafeLimit]
+
 ===============================================================================
